@@ -167,9 +167,46 @@ ensures
         None => !vstd::std_specs::hash::contains_borrowed_key(old(m)@, k) && final(m)@ == old(m)@,
     };
 pub broadcast group group_string_keys {
-    axiom_hm_deref_key_mutated,
+    axiom_hm_deref_key_mutated, axiom_string_partial_cmp,
     axiom_string_ext, axiom_string_of, axiom_string_obeys_key_model, axiom_contains_str_key, axiom_maps_str_key_to_value,
 }
+// std::string::String items without a vstd specification
+pub assume_specification [std::string::String::with_capacity](n: usize) -> (r: String) ensures r@ == Seq::<char>::empty();
+// a String never holds more than isize::MAX bytes (std invariant)
+pub assume_specification [std::string::String::len](s: &String) -> (r: usize) ensures r as int <= isize::MAX as int;
+// String ordering is the lexicographic order str_cmp of the character sequences (std: `impl Ord for str`)
+pub uninterp spec fn str_cmp(a: Seq<char>, b: Seq<char>) -> core::cmp::Ordering;
+#[verifier::external_body]
+pub broadcast proof fn axiom_string_partial_cmp(a: String, b: String)
+    ensures
+        <String as vstd::std_specs::cmp::PartialOrdSpec>::obeys_partial_cmp_spec(),
+        #[trigger] <String as vstd::std_specs::cmp::PartialOrdSpec>::partial_cmp_spec(&a, &b) == Some(str_cmp(a@, b@)),
+{}
+// Vec<Value>: From<&[Value]> clones the elements
+pub uninterp spec fn slice_to_vec_trigger<T>(s: Seq<T>, r: Vec<T>) -> bool;
+pub assume_specification<'a, T: Clone> [<Vec<T> as From<&'a [T]>>::from](s: &[T]) -> (r: Vec<T>)
+    ensures
+        r.len() == s.len(),
+        forall|i: int| 0 <= i < s.len() ==> vstd::pervasive::cloned::<T>(#[trigger] s@[i], r@[i]),
+        slice_to_vec_trigger(s@, r);
+pub broadcast proof fn lemma_slice_to_vec_value(s: Seq<Value>, r: Vec<Value>)
+    requires
+        #[trigger] slice_to_vec_trigger(s, r),
+        r.len() == s.len(),
+        forall|i: int| 0 <= i < s.len() ==> vstd::pervasive::cloned::<Value>(#[trigger] s[i], r@[i]),
+    ensures r@ == s
+{
+    assert forall|i: int| 0 <= i < s.len() implies s[i] == r@[i] by {
+        assert(vstd::pervasive::cloned::<Value>(s[i], r@[i]));
+    }
+    assert(r@ =~= s);
+}
+// the Vec with a given element sequence (total inverse of the view, by extensionality)
+pub uninterp spec fn vec_of(s: Seq<Value>) -> Vec<Value>;
+#[verifier::external_body]
+pub broadcast proof fn axiom_vec_of(s: Seq<Value>)
+    ensures (#[trigger] vec_of(s))@ == s
+{}
 // user / builtin functions are opaque to Verus
 #[verifier::external_type_specification]
 #[verifier::external_body]
